@@ -71,7 +71,7 @@ StepN(M, st) ==
       \* ... with the node's Origin-State-Id (judged on the content digest of the transmitted answer)
       vDwaOsi == IF feed /\ inSvc(c0) /\ ~closed(c0) /\ Len(ms) = 1 /\ IsDwr(ms[1])
                  THEN {"dwa_without_node_origin_state_id" : j \in {k \in 1..Len(out) : out[k].ev = "tx" /\ out[k].c = c0 /\ IsDwa(out[k].m) /\
-                          Key(out[k].m) = Key(ms[1]) /\ "x" \in DOMAIN out[k].m /\ out[k].m.x.osi # MCfg.node.osi}}
+                          Key(out[k].m) = Key(ms[1]) /\ out[k].m.rc = 2001 /\ "x" \in DOMAIN out[k].m /\ out[k].m.x.osi # MCfg.node.osi}}
                  ELSE {}
       \* a connection whose peer neither reads nor sends: the watchdog request cannot be seen on the wire, but idle timeout +
       \* DWA timeout (each judged at a timer check) after the last received byte the connection must have been closed
